@@ -3030,6 +3030,11 @@ func (bc *Blockchain) verifyAndPoolTx(t *transaction.Transaction, pool *mempool.
 		return fmt.Errorf("%w: %w", ErrInvalidScript, err)
 	}
 
+	// The transaction may have never been decoded (built by a local service).
+	if err = t.CheckLimits(); err != nil {
+		return fmt.Errorf("%w: %w", ErrTxTooBig, err)
+	}
+
 	height := bc.BlockHeight()
 	isPartialTx := data != nil
 	if t.ValidUntilBlock <= height {
